@@ -381,28 +381,84 @@ Definition spec_code (c : ecase) : N :=
       end
   end.
 
-(* five codes per case, each below 64: what the model says was observed (1, 2, 3, 5) and the README
-   decision (4) *)
-Definition fn_entry (c : ecase) : list N :=
+(* five characters per case (codes below 48, from "0"): what the model says was observed (1, 2, 3, 5)
+   and the README decision (4) *)
+Definition chr (n : N) : ascii := ascii_of_N (48 + n).
+
+Definition fn_entry (c : ecase) : string :=
   let o := model_obs c in
-  [code_of_level (ob_go_entry o) + 6 * bN (ob_ignored o) + 12 * bN (ob_fd o) + 24 * bN (ob_fe o);
-   code_of_level (Some (ob_level o)) + 6 * bN (ob_to_run o) + 12 * bN (ob_aggregated o);
-   code_of_level (ob_reported o) + 6 * code_of_level (ob_agg_reported o);
-   spec_code c;
-   code_of_level (ob_agg_reported_foreign o)].
+  String (chr (code_of_level (ob_go_entry o) + 6 * bN (ob_ignored o) + 12 * bN (ob_fd o) + 24 * bN (ob_fe o)))
+  (String (chr (code_of_level (Some (ob_level o)) + 6 * bN (ob_to_run o) + 12 * bN (ob_aggregated o)))
+  (String (chr (code_of_level (ob_reported o) + 6 * code_of_level (ob_agg_reported o)))
+  (String (chr (spec_code c))
+  (String (chr (code_of_level (ob_agg_reported_foreign o))) EmptyString)))).
 
 Definition range (n : nat) : list N := map N.of_nat (seq 0 n).
 
-(* the table is kept as numbers (printing a long string constant costs Coq ~40 us per character, a number
-   next to nothing): one number per row of 64 cases (the 64 command line codes f), base 64 digits, most
-   significant first, behind a leading 1 *)
-Definition pack_row (l : list ecase) : N :=
-  fold_left (fun acc c => fold_left (fun a d => a * 64 + d) (fn_entry c) acc) l 1.
+(* one chunk per (k, p, u) and one per (k, p) without user configuration, so that no single string
+   constant gets too deep for the checker's stack *)
+Definition fn_inputs_chunk (k p u : N) : list ecase :=
+  flat_map (fun c => flat_map (fun g => map (fun f => fn_input_case k p u c g 0 f) (range 64)) (range 4))
+           (range 5).
 
-Definition fn_row (k p u c g nu : N) : N := pack_row (map (fun f => fn_input_case k p u c g nu f) (range 64)).
+Definition fn_inputs_nouser (k p : N) : list ecase := map (fun f => fn_input_case k p 0 0 0 1 f) (range 64).
 
-(* one chunk per (k, p, u): rows (c, g) in order; and one row per (k, p) without user configuration *)
-Definition fn_table_chunk (k p u : N) : list N :=
-  flat_map (fun c => map (fun g => fn_row k p u c g 0) (range 4)) (range 5).
+Fixpoint concat_strings (l : list string) : string :=
+  match l with [] => EmptyString | s :: l' => append s (concat_strings l') end.
 
-Definition fn_table_nouser (k p : N) : list N := [fn_row k p 0 0 0 1].
+Definition fn_table_chunk (k p u : N) : string := concat_strings (map fn_entry (fn_inputs_chunk k p u)).
+Definition fn_table_nouser (k p : N) : string := concat_strings (map fn_entry (fn_inputs_nouser k p)).
+
+(* The comparison of a chunk of that table with what /repo did happens here (printing the table for a
+   comparison outside would cost Coq ~40 us per character).  [got] is built by tools/props/c04.py from the
+   observations in the same format; its 4th character is python's own reading of the README.  Three
+   verdicts per case:
+     model  characters 1, 2, 3, 5 differ: model and implementation disagree
+     spec   the README decision (4th character of the table: "0" outside the domain, "1" off, else 1 + level
+            code) is not what the implementation's entry points did: `report` (has_report), `aggregate`,
+            `aggregate_report` on the aggregates of the same run and on supplied ones (has_agg)
+     glue   python and Coq read the README differently *)
+Definition code_at (a : ascii) : N := N_of_ascii a - 48.
+
+Definition entry_verdicts (has_report has_agg : bool) (w1 w2 w3 w4 w5 g1 g2 g3 g4 g5 : ascii)
+  : bool * bool * bool :=
+  let model_ok := Ascii.eqb w1 g1 && Ascii.eqb w2 g2 && Ascii.eqb w3 g3 && Ascii.eqb w5 g5 in
+  let dec := code_at w4 - 1 in
+  let spec_ok :=
+      N.eqb (code_at w4) 0 ||
+      ((negb has_report || N.eqb (code_at g3 mod 6) dec)
+       && (negb has_agg
+           || (N.eqb ((code_at g2 / 12) mod 2) (if N.eqb dec 0 then 0 else 1)
+               && N.eqb (code_at g3 / 6) dec && N.eqb (code_at g5) dec))) in
+  (model_ok, spec_ok, Ascii.eqb w4 g4).
+
+(* indices (from [i]) of the cases failing each verdict; a [got] of the wrong length fails everywhere *)
+Fixpoint chunk_failing (has_report has_agg : bool) (want got : string) (i : nat)
+  : list nat * list nat * list nat :=
+  match want, got with
+  | String w1 (String w2 (String w3 (String w4 (String w5 want')))),
+    String g1 (String g2 (String g3 (String g4 (String g5 got')))) =>
+      let '(m, sp, gl) := entry_verdicts has_report has_agg w1 w2 w3 w4 w5 g1 g2 g3 g4 g5 in
+      let '(ms, sps, gls) := chunk_failing has_report has_agg want' got' (S i) in
+      ((if m then ms else i :: ms), (if sp then sps else i :: sps), (if gl then gls else i :: gls))
+  | EmptyString, EmptyString => ([], [], [])
+  | _, _ => ([i], [i], [i])
+  end.
+
+(* number of cases of the table that lie in the domain of the README decision *)
+Fixpoint chunk_in_domain (want : string) (acc : N) : N :=
+  match want with
+  | String _ (String _ (String _ (String w4 (String _ want')))) =>
+      chunk_in_domain want' (if N.eqb (code_at w4) 0 then acc else acc + 1)
+  | _ => acc
+  end.
+
+Fixpoint chunks_failing (l : list (bool * bool * string * string)) (i : nat)
+  : list nat * list nat * list nat :=
+  match l with
+  | [] => ([], [], [])
+  | (hr, ha, want, got) :: l' =>
+      let '(m, sp, gl) := chunk_failing hr ha want got i in
+      let '(ms, sps, gls) := chunks_failing l' (i + Nat.div (String.length want) 5) in
+      ((m ++ ms)%list, (sp ++ sps)%list, (gl ++ gls)%list)
+  end.
